@@ -41,7 +41,8 @@ META = dict(
               "reach the wire and are compared exactly; decode: binance millisecond and bitstamp microsecond timestamp kernels over "
               "2010..2100, over the reals with symbolic integer timestamps AND for binary64 by a per-binade integer "
               "encoding of the two roundings (fpkernel)",
-        thorough="same (the space is covered symbolically; nothing to deepen) plus coefficient bound 1e28"),
+        thorough="adds coefficients up to 1e28 with exponents -30 .. +12 on the main entry points, 4 trades in the "
+                 "decode scenario"),
     stubs=["aiohttp.ClientSession -> recording stub passed through the clients' own session= parameter",
            "time.time in the client modules -> fixed value", "hmac left real (signature value irrelevant here)",
            "datetime.datetime.fromtimestamp inside the timestamp helpers -> exact real-arithmetic model (for the "
@@ -55,6 +56,7 @@ META = dict(
 )
 
 EXPONENTS = list(range(-14, 5))
+EXPONENTS_WIDE = list(range(-30, 13))
 SHAPES = [1, 3, 10, 30, 100, 3000, 10500, 29400, 1000000, 123456789, 999999999999, 10 ** 15, 5 * 10 ** 15 + 1]
 
 
@@ -126,7 +128,8 @@ def sym_decimal(ctx, name):
     if st["subject"] is None:
         st["subject"] = ctx.choice("subject_parameter", 4)
     if idx == st["subject"] or (idx == 0 and st["subject"] >= 4):
-        e = EXPONENTS[ctx.choice(name + "_exponent", len(EXPONENTS))]
+        exps = EXPONENTS_WIDE if ctx.scratch.get("c17_wide") else EXPONENTS
+        e = exps[ctx.choice(name + "_exponent", len(exps))]
     else:
         e = -2
     if ctx.scratch.get("c17_shapes"):
@@ -138,7 +141,7 @@ def sym_decimal(ctx, name):
     if ctx.mode == "sym":
         c = z3.Int(name + "_coefficient")
         ctx._reg(name + "_coefficient", "int", None, c)
-        ctx.add(z3.And(c >= 1, c < 10 ** 16))
+        ctx.add(z3.And(c >= 1, c < (10 ** 28 if ctx.scratch.get("c17_wide") else 10 ** 16)))
         return SymDec(Lin.atom(c), e)
     ctx.vars[name + "_coefficient"] = None
     return Decimal(int(ctx.assign[name + "_coefficient"])).scaleb(e)
@@ -151,9 +154,10 @@ def _binance(ctx):
     return e, sess
 
 
-def encode_binance(ctx, account="spot", entry="limit", op="buy", shapes=False):
+def encode_binance(ctx, account="spot", entry="limit", op="buy", shapes=False, wide=False):
     import basana.external.binance.client.base as bn_base
     ctx.scratch["c17_shapes"] = shapes
+    ctx.scratch["c17_wide"] = wide
     ctx.patch(bn_base, "time", types.SimpleNamespace(time=lambda: 1700000000.123), both_modes=True)
     e, sess = _binance(ctx)
     acc = {"spot": lambda: e.spot_account, "cross": lambda: e.cross_margin_account,
@@ -221,9 +225,10 @@ def encode_binance(ctx, account="spot", entry="limit", op="buy", shapes=False):
     ctx.cover("timestamp kernel decided")
 
 
-def encode_bitstamp(ctx, entry="limit", op="buy", shapes=False):
+def encode_bitstamp(ctx, entry="limit", op="buy", shapes=False, wide=False):
     import basana.external.bitstamp.helpers as bt_helpers
     ctx.scratch["c17_shapes"] = shapes
+    ctx.scratch["c17_wide"] = wide
     ctx.patch(bt_helpers, "time", types.SimpleNamespace(time=lambda: 1700000000.123), both_modes=True)
     sess = StubSession()
     d = bs.realtime_dispatcher()
@@ -509,6 +514,15 @@ def jobs(tier):
             if op == "sell":
                 js.append(Job("encode (digit shapes) bitstamp %s" % entry, "encode_bitstamp",
                               dict(entry=entry, op=op, shapes=True), validate_every=0, sample_every=200))
+    if tier == "thorough":
+        for account in ("spot", "cross", "isolated"):
+            for entry in ("limit", "stop_limit", "oco_stop_limit", "market_quote"):
+                js.append(Job("encode (28 digits, exponents -30..+12) binance %s %s" % (account, entry),
+                              "encode_binance", dict(account=account, entry=entry, op="sell", wide=True),
+                              validate_every=40, sample_every=100, max_paths=2000000))
+        for entry in ("market", "limit", "instant"):
+            js.append(Job("encode (28 digits, exponents -30..+12) bitstamp %s" % entry, "encode_bitstamp",
+                          dict(entry=entry, op="buy", wide=True), validate_every=20, sample_every=50))
     for which in ("binance_ms", "bitstamp_trades", "bitstamp_orders", "bitstamp_order_book"):
         js.append(Job("timestamps over the reals: " + which, "timestamps_reals", dict(which=which), validate_every=1,
                       sample_every=1))
